@@ -323,18 +323,21 @@ class XsdWildcard(XsdComponent):
             self.namespace.update(other.namespace)
             return
 
-        if w1.target_namespace in w2.namespace and '' in w2.namespace:
+        # Namespaces excluded by w1 (##other) that are not admitted by w2
+        excluded = {'', w1.target_namespace}
+        not_namespace = excluded - w2.namespace
+        if not not_namespace:
             self.namespace.clear()
             self.namespace.add('##any')
-        elif '' not in w2.namespace and w1.target_namespace == w2.target_namespace:
+        elif not_namespace == excluded and w1.target_namespace == self.target_namespace:
             self.namespace.clear()
             self.namespace.add('##other')
-        elif self.xsd_version == '1.0':
+        elif self.xsd_version == '1.0' and not_namespace != {''}:
             msg = _("not expressible wildcard namespace union: {0!r} V {1!r}:")
             raise XMLSchemaValueError(msg.format(other.namespace, self.namespace))
         else:
             self.namespace.clear()
-            self.not_namespace = {'', w1.target_namespace}
+            self.not_namespace = not_namespace
 
     def intersection(self, other: Union['XsdAnyElement', 'XsdAnyAttribute']) -> None:
         """Update an XSD wildcard with the intersection of itself and another XSD wildcard."""
@@ -606,6 +609,8 @@ class XsdAnyElement(XsdWildcard, ParticleMixin,
                 return True
             else:
                 return any(ns not in other.not_namespace for ns in self.namespace)
+        elif not self.namespace or not other.namespace:
+            return False  # an empty namespace constraint admits no name
         elif self.namespace == other.namespace:
             return True
         elif '##any' in self.namespace or '##any' in other.namespace:
